@@ -94,6 +94,10 @@ fn sources() -> Vec<String> {
         "twice(twice(twice(slow(twice(a))))) + math::sqrt(b) ^ 2 - str::from(a) == s".to_string(),
         "(a, b, s, (a + b, s + s), typeof(s), nosuch(a))".to_string(),
         format!("{}a{} + slow(b) * c", "-(".repeat(48), ")".repeat(48)),
+        // many distinct builtins in one evaluation, in two different orders (whatever is cached per context or per
+        // tree about resolved builtins is replaced all the time)
+        "math::sin(a) + math::cos(a) + math::tan(b) + math::exp(b) + math::ln(b) + math::log2(b) + math::sqrt(b) + floor(b) + ceil(b) + round(b) + math::abs(a) + min(a, b) + max(a, b) + len(s) + bitand(a, 5) + shl(1, 3)".to_string(),
+        "shr(a, 1) + bitor(a, 2) + len(s) + max(a, b) + min(a, b) + math::abs(a) + round(b) + ceil(b) + floor(b) + math::cbrt(b) + math::log10(b) + math::atan(b) + math::sinh(b) + math::cosh(a) + math::exp2(b) + math::hypot(a, b)".to_string(),
     ]
 }
 
